@@ -22,8 +22,18 @@ def merged(ctx, corpora):
   return out, plans
 
 
+def design_model(ctx, module, cfg, timeout=1800):
+  """Run a bounded design model; a violated lemma is reported as a machinery failure of the suite."""
+  import tlc   # pylint: disable=import-outside-toplevel
+  res = tlc.run_model(module, cfg, ctx.workdir, workers=8, timeout=timeout, coverage=False)
+  if res["rc"] != 0 or res["violated"]:
+    raise tlc.MachineryError("design model %s/%s failed:\n%s" % (module, cfg, res["out"][-3000:]))
+  ctx.log("%s/%s: %d distinct states" % (module, cfg, res["distinct"]))
+  return res
+
+
 def run_clauses(ctx, prefix, relevant, rule, assumptions=(), profiles=None, name="shared", plan=None,
-                extra=None, corpora=None):
+                extra=None, corpora=None, design=None):
   if corpora:
     res, plan = merged(ctx, corpora)
   else:
@@ -54,6 +64,13 @@ def run_clauses(ctx, prefix, relevant, rule, assumptions=(), profiles=None, name
   }
   if extra:
     out["extra"].update(extra)
+  if design:
+    module, cfg = design
+    res_m = design_model(ctx, module, cfg)
+    out["states"] += res_m["distinct"]
+    out["transitions"] += res_m["generated"]
+    out["extra"]["design_model"] = {"module": module, "cfg": cfg, "distinct_states": res_m["distinct"],
+                                    "generated": res_m["generated"]}
   return out
 
 
